@@ -495,16 +495,19 @@ def replay_arnoldi(rep, light=False):
                     eng = kb.Arnoldi(B.op(), psi0, dict(opts))
                     Es, psis, N = eng.run()
                 rep.count('Arnoldi', (run['Nmax'], which, numev))
-                Es = np.asarray(Es, dtype=complex)
+                Es = np.array(Es, dtype=complex)        # a copy: the returned array is a view into the engine's `Es`
                 det = dict(options=opts, Es=[[float(e.real), float(e.imag)] for e in Es], N=int(N))
-                if numev == 1:
+                if numev == 1 and (not light or which == ('LM', 'LR', 'SR')[rep.variant % 3]):
                     # run() takes no argument: calling it again on the same engine has to return the same data
                     rep.count('Arnoldi', (run['Nmax'], which, 'rerun'))
                     try:
                         with warnings.catch_warnings():
                             warnings.simplefilter('ignore')
                             Es2, psis2, N2 = eng.run()
-                        if int(N2) != int(N) or rel(np.asarray(Es2, dtype=complex) - Es) > tol:
+                        # (ties in the `which` key may be resolved differently: compare the keys)
+                        k1 = np.array([which_key(which, e + sigma) for e in Es])
+                        k2 = np.array([which_key(which, e + sigma) for e in np.asarray(Es2, dtype=complex)])
+                        if int(N2) != int(N) or len(k1) != len(k2) or rel(k2 - k1) > tol * (1 + 2 * rel(Es + sigma)):
                             rep.fail('Arnoldi', 'second-run', dict(classes, reused=True),
                                      dict(det, Es_second=[[float(e.real), float(e.imag)] for e in np.asarray(Es2, dtype=complex)],
                                           N_second=int(N2)))
